@@ -18,7 +18,7 @@ RULE = (
     "E4 bounded-depth operation-sequence enumeration on ONE EnsembleEvaluator per sequence (its gradient cache is hidden "
     "state, so no merging): ALL sequences of length <=3 over {functions, functions on a batch, gradient-only, functions+"
     "gradients} x {x0, x1}, for shapes R in {2,3}, P in {1,2}, V in {1,2}, realization weights {uniform, with a zero}, filter "
-    "{none, sort window that zeroes realizations}, transforms {none, variables, objectives, constraints, all}, with and without a failing (NaN) unperturbed and perturbed row. The evaluator "
+    "{none, sort window that zeroes realizations (objective 0 + constraint), cvar filter mapped to the constraint only}, transforms {none, variables, objectives, constraints, all}, with and without a failing (NaN) unperturbed and perturbed row. The evaluator "
     "returns an injective dyadic code of (x, realization, function). Monitors on every call: label multiset == full product "
     "once each, perturbation index -1 exactly on unperturbed rows, rows are the user-domain images of the reported "
     "variables, every reported per-realization value is the value returned for the row with that label, inactive => weight "
@@ -55,7 +55,11 @@ def build_config(case: dict[str, Any]) -> tuple[dict[str, Any], Any]:
         "gradient": {"number_of_perturbations": P, "perturbation_magnitudes": 0.25},
         "samplers": [{"method": "verif/design", "options": {"design": design}, "shared": True}],
     }
-    if case["filter"]:
+    if case["filter"] == "con":
+        # a filter that is mapped to the constraint only (no objective filter map at all)
+        config["realization_filters"] = [{"method": "cvar-constraint", "options": {"sort": 0, "percentile": 0.5}}]
+        config["nonlinear_constraints"]["realization_filters"] = [0]
+    elif case["filter"]:
         config["realization_filters"] = [{"method": "sort-objective", "options": {"sort": [0], "first": 0, "last": max(0, R - 2)}}]
         config["objectives"]["realization_filters"] = [0, -1]
         config["nonlinear_constraints"]["realization_filters"] = [0]
@@ -326,8 +330,10 @@ def shards(tier: str, seed: int) -> list[dict[str, Any]]:
         for P in (1, 2):
             for V in vs:
                 for weights in ("uniform", "zero"):
-                    for flt in (False, True):
+                    for flt in (False, True, "con"):
                         for t in TRANSFORMS:
+                            if flt == "con" and tier == "quick" and t not in ("none", "all"):
+                                continue
                             for fail in (False, True):
                                 if fail and tier == "quick" and t not in ("none", "all"):
                                     continue
